@@ -686,6 +686,11 @@ func c09History(e *c09Env, r *rand.Rand, w *CaseWriter, hi int) {
 				owners = h.scopes[d].owners
 			}
 			sg := h.signers(3, []int{h.holder(d)}, -1, owners)
+			if _, isMk := h.mks[h.holder(d)]; isMk && len(owners) > 0 && r.Intn(3) == 0 {
+				// the owner parties alone try to delete a scope whose value owner is a marker
+				// (nobody with withdraw access on it is asked)
+				sg = h.goodSigners(3, nil, -1, owners)
+			}
 			msg := &mdtypes.MsgDeleteScopeRequest{ScopeId: h.ids[d], Signers: h.strs(sg)}
 			run = func(c sdk.Context) error {
 				err := e.runMsg(c, msg)
@@ -718,9 +723,10 @@ func c09History(e *c09Env, r *rand.Rand, w *CaseWriter, hi int) {
 		case x < 94: // authz grant / revoke
 			granter := 1 + r.Intn(3)
 			if r.Intn(4) == 0 {
-				granter = h.anyAcct()
+				// any account that can sign a MsgGrant (markers and module accounts have no key)
+				granter = []int{1, 2, 3, c09Grantee, c09Stranger, c09Admin, c09Wasm}[r.Intn(7)]
 			} else if r.Intn(2) == 0 {
-				if a := h.holder(r.Intn(nIds)); a > 0 {
+				if a := h.holder(r.Intn(nIds)); a > 0 && a != c09Mk1 && a != c09Mk2 && a != c09Blocked && a != c09Other {
 					granter = a // a current value owner
 				}
 			}
